@@ -20,6 +20,13 @@ import time
 
 V = "/verif"
 R = "/repo"
+# WORKTREE=1: apply the change in a scratch worktree of /repo (removed afterwards) and point the check at it with
+# VERIF_REPO / VERIF_OUT instead of touching /repo's own working tree - lets the matrix run next to other work.
+WT = "/tmp/wt_matrix_%d" % os.getpid() if os.environ.get("WORKTREE") else None
+if WT:
+    subprocess.run(f"git -C /repo worktree add -q --detach {WT} HEAD", shell=True, check=True)
+    R = WT
+OUTENV = f"VERIF_REPO={WT} VERIF_OUT=/tmp/matrix_out_{os.getpid()} " if WT else ""
 TIER = os.environ.get("TIER", "quick")
 
 
@@ -77,13 +84,14 @@ def one(name):
         return meta
     t0 = time.time()
     try:
-        r = sh(f"cd {V} && timeout 3000 ./check {pid} {TIER}")
+        r = sh(f"cd {V} && {OUTENV}timeout 3000 ./check {pid} {TIER}")
     finally:
         sh(f"git -C {R} checkout -- .")
     keys = re.findall(r"^VIOLATION property=\S+ replay=\S+\s+key='(.*)'\s*$", r.stdout, flags=re.M)
     meta["check_result"] = {
         "patch_applies_to_current_head": True,
         "repo_head": sh(f"git -C {R} rev-parse --short HEAD").stdout.strip(),
+        "mode": "scratch worktree (VERIF_REPO)" if WT else "/repo working tree",
         "command": f"git -C /repo apply seeded/{name}/patch.diff ; ./check {pid} {TIER} ; git -C /repo checkout -- .",
         "exit_code": r.returncode,
         "detected": r.returncode == 1 and len(keys) > 0,
@@ -98,7 +106,8 @@ def one(name):
 def main():
     names = sys.argv[1:] or sorted(n for n in os.listdir(os.path.join(V, "seeded")) if os.path.isdir(os.path.join(V, "seeded", n)))
     keep = os.path.join("/tmp", "evidence_keep_%d" % os.getpid())
-    shutil.copytree(os.path.join(V, "evidence"), keep)
+    if not WT:
+        shutil.copytree(os.path.join(V, "evidence"), keep)
     rows = []
     try:
         for n in names:
@@ -109,9 +118,10 @@ def main():
             rows.append(meta)
     finally:
         sh(f"git -C {R} checkout -- .")
-        shutil.rmtree(os.path.join(V, "evidence"))
-        shutil.copytree(keep, os.path.join(V, "evidence"))
-        shutil.rmtree(keep)
+        if not WT:
+            shutil.rmtree(os.path.join(V, "evidence"))
+            shutil.copytree(keep, os.path.join(V, "evidence"))
+            shutil.rmtree(keep)
     # RESULTS.md over everything that has a meta.json
     out = ["# Seeded changes and the check that reports them", "", "| seed | files | detected | exit | first key | s |", "|---|---|---|---|---|---|"]
     for n in sorted(os.listdir(os.path.join(V, "seeded"))):
@@ -125,4 +135,9 @@ def main():
     open(os.path.join(V, "seeded", "RESULTS.md"), "w").write("\n".join(out) + "\n")
 
 
-main()
+try:
+    main()
+finally:
+    if WT:
+        subprocess.run(f"git -C /repo worktree remove --force {WT}", shell=True)
+        shutil.rmtree(f"/tmp/matrix_out_{os.getpid()}", ignore_errors=True)
